@@ -21,6 +21,9 @@ type Violation struct {
 	Attrs  map[string]string `json:"attrs,omitempty"`
 	Detail string            `json:"detail"`
 	Step   int               `json:"step"`
+	// Plan, when set, is the plan that reproduces this particular violation
+	// (runs that execute several plans, e.g. fault enumeration).
+	Plan *Plan `json:"-"`
 }
 
 // Sig is what minimisation preserves and what known findings match on.
